@@ -764,7 +764,7 @@ func TestC13(t *testing.T) {
 			"Non-trivial: a boundary / empty / null value, a nested container, a strict non-empty checker subset, a multi-component or over-long key. Distinct by hash of the case JSON.",
 		Assumptions: []string{"map keys are non-empty and differ from the reserved list-size marker", "NaN is compared by bit pattern"},
 		Gen:         genC13, Run: runC13,
-		QuickChecks: 15000, ThoroughFactor: 20,
+		QuickChecks: 40000, ThoroughFactor: 8,
 	})
 }
 
